@@ -8,6 +8,37 @@ pub enum Tier {
 }
 
 pub fn families(prop: &str, tier: Tier) -> Vec<Cfg> {
+    let mut v = families_of(prop, tier);
+    // CONNACKs dressed with every further legal property (the client has no use for any of them): nothing a
+    // session property says may depend on them
+    const DRESSED: [(&str, &str); 7] = [
+        ("C02", "C02-connack-with-further-legal-properties"),
+        ("C03", "C03-connack-with-further-legal-properties"),
+        ("C06", "C06-connack-with-further-legal-properties"),
+        ("C12", "C12-connack-with-further-legal-properties"),
+        ("C16", "C16-connack-with-further-legal-properties"),
+        ("C18", "C18-connack-with-further-legal-properties"),
+        ("C01", "C01-connack-with-further-legal-properties"),
+    ];
+    if let Some((p, name)) = DRESSED.iter().find(|(p, _)| *p == prop) {
+        let q = tier == Tier::Quick;
+        let mut x = Cfg::base(name);
+        x.props = vec![p];
+        x.ops = vec![OpK::Pub1, OpK::Pub2, OpK::Sub, OpK::Poll, OpK::DropConn];
+        x.io = IoMenu::benign();
+        x.broker.may_lose_session = true;
+        x.broker.connack_extras = vec![0, 1, 2, 3, 4, 5, 6];
+        x.rx = 128;
+        x.max_ops = if q { 6 } else { 8 };
+        x.max_conns = if q { 3 } else { 4 };
+        x.max_reqs = 2;
+        x.dev = 0;
+        v.push(x);
+    }
+    v
+}
+
+fn families_of(prop: &str, tier: Tier) -> Vec<Cfg> {
     let q = tier == Tier::Quick;
     match prop {
         "C01" => {
@@ -154,6 +185,22 @@ pub fn families(prop: &str, tier: Tier) -> Vec<Cfg> {
             g2.dev = 1;
             v.push(g);
             v.push(g2);
+            // credentials in their unusual legal forms: user name with a zero-length password, with and without a will
+            for (name, will) in [("C01-connect-with-user-name-and-empty-password", false), ("C01-connect-with-empty-password-and-will", true)] {
+                let mut h = Cfg::base(name);
+                h.props = vec!["C01"];
+                h.auth = true;
+                h.empty_password = true;
+                h.will = will;
+                h.ops = vec![OpK::Pub1, OpK::Poll, OpK::Disconnect, OpK::DropConn];
+                h.io = IoMenu::partial();
+                h.cancel = true;
+                h.max_ops = 4;
+                h.max_conns = 2;
+                h.max_reqs = 1;
+                h.dev = 1;
+                v.push(h);
+            }
             v
         }
         "C09" => {
@@ -338,6 +385,8 @@ pub fn families(prop: &str, tier: Tier) -> Vec<Cfg> {
             f.ops = vec![OpK::Pub2, OpK::Poll, OpK::DropConn];
             f.io = IoMenu::benign();
             f.broker.max_packet = vec![None, Some(5), Some(8), Some(64)];
+            // (an 8-byte PUBLISH - one-letter topic, no payload - fits the limit 8)
+            f.payload_sizes = vec![0, 2];
             f.max_ops = if q { 8 } else { 10 };
             f.max_conns = if q { 3 } else { 4 };
             f.max_reqs = 2;
@@ -574,6 +623,19 @@ pub fn families(prop: &str, tier: Tier) -> Vec<Cfg> {
             r.max_reqs = if q { 4 } else { 5 };
             r.dev = 0;
             v.push(r);
+            // the broker's Maximum QoS below the requested one, automatic downgrade off (the crate sends what was asked
+            // for): the window applies all the same
+            let mut mq = Cfg::base("C06-window-with-maximum-qos-below-the-requested");
+            mq.props = vec!["C06"];
+            mq.ops = vec![OpK::Pub1, OpK::Pub2, OpK::Poll, OpK::DropConn];
+            mq.io = IoMenu::benign();
+            mq.broker.receive_max = vec![Some(1), Some(2)];
+            mq.broker.max_qos = vec![Some(0), Some(1), None];
+            mq.max_ops = if q { 6 } else { 8 };
+            mq.max_conns = 2;
+            mq.max_reqs = if q { 3 } else { 4 };
+            mq.dev = 0;
+            v.push(mq);
             // local limit: Receive Maximum above / at the local window of 8
             let mut b = Cfg::base("C06-receive-maximum-9-and-65535");
             b.must_reach = vec!["eight publishes unresolved at the broker", "publish refused because the send window is full"];
@@ -1345,7 +1407,18 @@ pub fn families(prop: &str, tier: Tier) -> Vec<Cfg> {
             e.max_conns = 2;
             e.max_reqs = 3;
             e.dev = 0;
-            vec![a, b, c, d, e, f]
+            // tiny Maximum Packet Size values that change between connections (the shortest PUBLISH there is just fits 8)
+            let mut g = Cfg::base("C18-status-under-tiny-maximum-packet-size");
+            g.props = vec!["C18"];
+            g.ops = vec![OpK::Pub2, OpK::Pub1, OpK::Poll, OpK::DropConn];
+            g.io = IoMenu::benign();
+            g.broker.max_packet = vec![None, Some(5), Some(8), Some(64)];
+            g.payload_sizes = vec![0, 2];
+            g.max_ops = if q { 7 } else { 9 };
+            g.max_conns = if q { 3 } else { 4 };
+            g.max_reqs = 2;
+            g.dev = 0;
+            vec![a, b, c, d, e, f, g]
         }
         _ => vec![],
     }
